@@ -49,7 +49,11 @@ func c10Scenario(c *core.Ctx) fScenario {
 		cfgs := []InstCfg{{"mappartial", []uint8{0, 2, 63}[c.Index%3]}, {"mappartial", uint8(c.Rng.Intn(64))}, {"mapfull", []uint8{0, 63, 5}[c.Index%3]}}
 		p := gen.Tiny
 		p.RememberMode = 1
-		return genForestScenario(c.Rng, tag, cfgs, fGenOpts{Profile: p, Rounds: 2 + c.Rng.Intn(2), Undo: c.Index%2 == 0, PartialOps: true})
+		s := genForestScenario(c.Rng, tag, cfgs, fGenOpts{Profile: p, Rounds: 2 + c.Rng.Intn(2), Undo: c.Index%2 == 0, PartialOps: true})
+		if c.Index%8 == 5 {
+			s.LeafMode = "readd"
+		}
+		return s
 	case "tall":
 		cfgs := []InstCfg{{Kind: "pollard"}, {"mapfull", 0}, {"mapfull", 63}}
 		p := gen.Tall
@@ -61,7 +65,11 @@ func c10Scenario(c *core.Ctx) fScenario {
 		if c.Index%2 == 0 {
 			p = gen.Tiny
 		}
-		return genForestScenario(c.Rng, tag, cfgs, fGenOpts{Profile: p, Rounds: 2 + c.Rng.Intn(3), Undo: true, ForceEmptyRootOverwrite: c.Index%4 == 0})
+		s := genForestScenario(c.Rng, tag, cfgs, fGenOpts{Profile: p, Rounds: 2 + c.Rng.Intn(3), Undo: true, ForceEmptyRootOverwrite: c.Index%4 == 0})
+		if c.Index%8 == 5 {
+			s.LeafMode = "readd" // a block re-adds a hash it deletes, or one that died earlier
+		}
+		return s
 	}
 }
 
@@ -91,6 +99,7 @@ func c10CheckInst(c *core.Ctx, w *World, in *Inst, f *rm.Forest, when string, af
 		return true
 	}
 	nTracked := 0
+	counted := map[Hash]bool{} // a hash can sit in a dead slot and, re-added, in a live one
 	var ask []Hash
 	var askWant []uint64
 	// every leaf ever added: live or dead
@@ -99,7 +108,8 @@ func c10CheckInst(c *core.Ctx, w *World, in *Inst, f *rm.Forest, when string, af
 		got, ok := in.U.GetLeafPosition(h)
 		want, live := f.LeafPos[h]
 		tr := tracked(h)
-		if tr {
+		if tr && !counted[h] {
+			counted[h] = true
 			nTracked++
 		}
 		switch {
